@@ -16,13 +16,33 @@ META = {
     "text": "Proof (merge algebra, unbounded): unset objects are neutral, merge is associative, commutative "
             "modulo the element order of Concat fields (UseFirst/UseLast classes excluded and reported), hence a "
             "fold of merge over handler outputs does not depend on their order (equal modulo Concat order, or an "
-            "error in every order). Correspondence: Coq evaluates model==implementation and the law predicate on "
+            "error in every order). Proof (executor model Model/MeshExec.v = execute_for with its three rule loops, "
+            "the three interface decision tables, InterfaceChanges and to_bgp_peer; all inputs): the interface of a "
+            "direct / indirect session is decided by a declarative table for every DTO, port list, device state and "
+            "adapter naming (port, LAG, sub-interface n for every integer n incl. 0, SVI; ValueError exactly on the "
+            "refused combinations), the local address is assigned on exactly that interface, and for a whole "
+            "execute_for run the peers' interfaces and the assigned addresses are those the merged DTOs select "
+            "(C15_interface, C15_interface_indirect, C15_subif_unit, C15_interface_run); an attribute present in the "
+            "session with a device C was set by a handler call for the pair (device, C), through any number of keyed "
+            "merges (C15_no_leak, C15_no_leak_direct); a rule match is mirrored on the other end for direct and "
+            "indirect rules (C15_mirror, C15_mirror_indirect), a virtual session is exactly what its one handler call "
+            "wrote (C15_virtual_session). Correspondence: Coq evaluates model==implementation and the law predicate on "
             "the outputs of the real annet.mesh.basemodel.merge over random and exhaustive small instances of the "
-            "real DTO classes (mergers read from the classes), and on real MeshExecutor.execute_for results over "
-            "stub storages for all permutations of handler registration and both ends of every session.",
-    "technique": "Coq nested induction over model values; vm_compute differential check against the real code",
-    "note": "partial: adaptix conversion (to_bgp_peer/PeerOptions), storage adapters and name-template regexes "
-            "are exercised by the correspondence only",
+            "real DTO classes (mergers read from the classes); on real MeshExecutor.execute_for results over stub "
+            "storages it evaluates (a) the declarative interface predicate on exhaustive decision tables (lag/svi in "
+            "{unset, None, 0, 1} x subif in {unset, 0, 1, 7} on either end, 1-2 links, united/separate ports; "
+            "indirect ifname x svi x subif; virtual svi), (b) equality of the whole-executor model with the "
+            "implementation (every Peer field, PeerOptions, interface, and the (interface, address, vrf) log) on "
+            "generated registries with direct, indirect and virtual rules, (c) permutation invariance of handler "
+            "registration, mirror of both ends, and a no-leak predicate (every option of a peer was set by a call "
+            "for its pair).",
+    "technique": "Coq induction over rule-match lists, keyed accumulators and nested model values; vm_compute "
+                 "differential check of the Gallina model against the real code",
+    "note": "partial: the mirror theorems are per rule match (after the keyed merge of several handlers the two ends "
+            "group by different keys: statement kept in Proofs/MeshProofs.v, checked by the correspondence only); "
+            "handler and matcher are abstract pure functions in the theorems -- name-template regexes, Left/Right "
+            "filters, adaptix type coercion of PeerOptions and the storage adapter (stubbed per the "
+            "annet.storage.Device contract 'add or return existing') are exercised by the correspondence only",
 }
 
 # ---------------------------------------------------------------------------------------------
@@ -360,6 +380,8 @@ MASKS = {  # template -> (regex the generator uses to know what it matches, has 
 }
 CONDS = {"none": lambda l, r: True, "eq": lambda l, r: l == r, "lt": lambda l, r: l < r, "ne": lambda l, r: l != r}
 FAMS = ["ipv4_unicast", "ipv6_unicast", "l2vpn_evpn"]
+SESSION_OPTS = ["add_path", "multipath", "send_labeled"]           # _SharedOptionsDTO: may be set on the session
+OPTION_POOL = SESSION_OPTS + ["rr_client", "next_hop_self", "passive", "as_override"]
 
 
 def mask_n(mask, name):
@@ -412,11 +434,13 @@ def gen_exec_case(rng, big: bool) -> dict:
     shared_mask = rng.choice(list(MASKS)), rng.choice(list(MASKS))
     rules = []
     for ri in range(n_rules):
-        kind = "direct" if rng.random() < 0.7 else "indirect"
+        kind = "direct" if rng.random() < 0.65 else "indirect"
         if rng.random() < 0.6:
             lm, rm = shared_mask
         else:
             lm, rm = rng.choice(list(MASKS)), rng.choice(list(MASKS))
+        if kind == "indirect" and rng.random() < 0.5:
+            lm, rm = "{r:\\w}{n}", rng.choice(["{r:\\w}{n}", "{x:.*}"])   # several indirect sessions per device
         rule = {"kind": kind, "left": lm, "right": rm, "cond": rng.choice(["none", "none", "eq", "lt", "ne"]),
                 "pp": rng.choice(["united", "united", "separate"]), "table": {}}
         variant = 0 if rng.random() < 0.7 else ri + 1      # variant 0: same session as other handlers
@@ -463,6 +487,10 @@ def gen_exec_case(rng, big: bool) -> dict:
                         s["bfd"] = True
                     if rng.random() < 0.3:
                         s["import_policy"] = "IMP" if rng.random() < 0.9 else f"IMP{ri}"
+                    if "import_policy" not in s and rng.random() < 0.15:
+                        l["import_policy"] = f"IMP_{L}"                # per side: read from the device's own DTO
+                    if rng.random() < 0.15:
+                        r["export_policy"] = f"EXP_{R}"
                     if rng.random() < 0.4:
                         l["mtu"], r["mtu"] = 9000, 9000 + (ri if rng.random() < 0.1 else 0)
                     if rng.random() < 0.3:
@@ -470,39 +498,88 @@ def gen_exec_case(rng, big: bool) -> dict:
                         r["description"] = f"to {L}"
                     if rng.random() < 0.2:
                         l["send_community"] = True
+                    for f in OPTION_POOL:
+                        if rng.random() < 0.12:
+                            rng.choice([l, r, s] if f in SESSION_OPTS else [l, r])[f] = True
                     if kind == "direct":
                         many = len(g) > 1
                         mode = rng.random()
                         if many and mode < 0.75:
-                            l["lag"] = r["lag"] = 1 + gi
+                            l["lag"] = r["lag"] = rng.choice([1 + gi, gi - 1, 0])
                             if rng.random() < 0.3:
                                 l["lag_links_min"] = r["lag_links_min"] = 1
-                            if rng.random() < 0.2:
-                                l["subif"] = r["subif"] = 100
+                            if rng.random() < 0.35:
+                                l["subif"] = rng.choice([0, 0, 100])
+                                r["subif"] = rng.choice([0, l["subif"], l["subif"]])
                         elif many and mode < 0.85:
-                            l["svi"] = r["svi"] = 10 + gi
+                            l["svi"] = r["svi"] = rng.choice([10 + gi, 0, 1])
                         elif many and mode < 0.93:
                             l["lag"] = 1 + gi                    # one side only: the other end must raise
-                        elif not many and mode < 0.2:
-                            l["subif"] = r["subif"] = 200 + ri
-                        elif not many and mode < 0.3:
-                            l["svi"] = r["svi"] = 20 + gi
-                        elif not many and mode < 0.34:
+                        elif not many and mode < 0.25:
+                            l["subif"] = rng.choice([0, 0, 1, 200 + ri])
+                            r["subif"] = rng.choice([0, l["subif"], l["subif"]])
+                        elif not many and mode < 0.35:
+                            l["svi"] = r["svi"] = rng.choice([20 + gi, 0, 1])
+                        elif not many and mode < 0.39:
                             l["svi"], l["lag"] = 5, 6             # InterfaceChanges refuses the pair
+                        elif not many and mode < 0.45:
+                            l["lag"] = r["lag"] = rng.choice([0, 3])   # a LAG of one link
+                            if rng.random() < 0.5:
+                                l["subif"] = r["subif"] = rng.choice([0, 5])
                     else:
                         m = rng.random()
-                        if m < 0.5:
+                        if m < 0.4:
                             l["ifname"] = r["ifname"] = "lo0"
-                        elif m < 0.8:
-                            l["svi"] = r["svi"] = 30 + idx[L] + idx[R]
+                        elif m < 0.65:
+                            l["svi"] = r["svi"] = rng.choice([30 + idx[L] + idx[R], 0, 1])
+                        elif m < 0.9:
+                            l["ifname"] = r["ifname"] = "lo0"
+                            l["subif"] = r["subif"] = rng.choice([7, 0, 0])
                         else:
-                            l["ifname"] = r["ifname"] = "lo0"
-                            l["subif"] = r["subif"] = 7
+                            l["ifname"], r["svi"] = "lo0", 2
                     rule["table"][key] = {"l": {f: sv(v) for f, v in l.items()},
                                           "r": {f: sv(v) for f, v in r.items()},
                                           "s": {f: sv(v) for f, v in s.items()}}
         rules.append(rule)
+    if rng.random() < 0.25:
+        rules.append(gen_virtual_rule(rng, devs, idx, len(rules)))
     return {"devices": devs, "ports": ports, "rules": rules}
+
+
+def gen_virtual_rule(rng, devs, idx, ri) -> dict:
+    rule = {"kind": "virtual", "left": rng.choice(["a{n}", "b{n}", "{r:[ab]}{n}", "{x:.*}"]),
+            "num": rng.choice([[0], [1, 2], [0, 3]]), "table": {}}
+    for d in devs:
+        if mask_n(rule["left"], d) is None:
+            continue
+        for num in rule["num"]:
+            if rng.random() < 0.1:
+                continue
+            l = {"asnum": 65000 + idx[d], "svi": rng.choice([0, 1, 40 + num])}
+            v = {"addr": f"192.0.{idx[d]}.{10 + num}", "asnum": 64600 + num}
+            s = {}
+            if rng.random() < 0.05:
+                del l["svi"]                                   # "did not provide `svi` number"
+            if rng.random() < 0.5:
+                s["families"] = {"ipv4_unicast"}
+            if rng.random() < 0.3:
+                s["bfd"] = True
+            if rng.random() < 0.3:
+                l["rr_client"] = True
+            if rng.random() < 0.3:
+                v["description"] = f"vm {num}"
+            rule["table"][f"{d}|{num}"] = {"l": {f: sv(x) for f, x in l.items()}, "r": {f: sv(x) for f, x in v.items()},
+                                           "s": {f: sv(x) for f, x in s.items()}}
+    return rule
+
+
+def iface_kind(i) -> str:
+    if i is None:
+        return "none"
+    base = "lag" if i.startswith("Trunk") else "svi" if i.startswith("Vlan") else "loopback" if i.startswith("lo") else "port"
+    if "." in i:
+        return base + (".0" if i.endswith(".0") else ".n")
+    return base + ("0" if base in ("lag", "svi") and i[-1] == "0" and not i[-2].isdigit() else "")
 
 
 def cxres(o: dict) -> str:
@@ -526,17 +603,23 @@ def exec_term(case, out) -> str:
     return clist(per_dev)
 
 
-def run_exec_part(ctx):
+def run_exec_part(ctx, tbl):
     rng = ctx.rng("exec")
-    n = 2500 if ctx.thorough else 260
+    n = 2000 if ctx.thorough else 260
     cases = [gen_exec_case(rng, ctx.thorough) for _ in range(n)]
     outs = core.run_impl_sharded("c15_runner.py", cases, wrap=lambda c: {"op": "exec", "cases": c},
                                  shards=min(core.NPROC, max(1, len(cases) // 10)))
     terms = [exec_term(c, o) for c, o in zip(cases, outs)]
     res = core.run_case_files(ID, "exec_output", IMPORTS, {"holds": "fun c => P_C15_exec c"}, terms,
                               per_file=40, tag="exec")
-    stats = {"runs": 0, "ok": 0, "ValueError": 0, "other": 0, "peers": 0, "merged_sessions": 0,
-             "cases_with_peers_on_both_ends": 0, "permutations": 0}
+    eterms = [ecase_term(c, o) for c, o in zip(cases, outs)]
+    res2 = core.run_case_files(ID, "ecase * list (string * eres)", IMPORTS_IFACE,
+                               {"agree": AGREE_EXEC, "noleak": "fun c => P_C15_no_leak (fst c) (snd c)"}, eterms,
+                               per_file=20, tag="exec_model", extra_defs=schema_defs(tbl))
+    stats = {"runs": 0, "ok": 0, "ValueError": 0, "other": 0, "peers": 0,
+             "cases_with_peers_on_both_ends": 0, "permutations": 0,
+             "devices_with_2plus_indirect_peers": 0, "virtual_peers": 0, "peers_without_interface": 0,
+             "peer_interface_kinds": {}}
     seen, nontrivial = set(), 0
     for c, o in zip(cases, outs):
         both = 0
@@ -551,6 +634,16 @@ def run_exec_part(ctx):
             r0 = o["out"][d][0]
             if "ok" in r0 and r0["ok"]["peers"]:
                 both += 1
+            if "ok" in r0:
+                ind = 0
+                for p in r0["ok"]["peers"]:
+                    a, i = p["addr"]["v"], p["interface"].get("v")
+                    ind += a.startswith("172.")
+                    stats["virtual_peers"] += a.startswith("192.0.")
+                    stats["peers_without_interface"] += i is None
+                    kind = iface_kind(i)
+                    stats["peer_interface_kinds"][kind] = stats["peer_interface_kinds"].get(kind, 0) + 1
+                stats["devices_with_2plus_indirect_peers"] += ind >= 2
         stats["permutations"] += len(o["orders"])
         h = core.canon_hash(c)
         if h in seen:
@@ -567,18 +660,314 @@ def run_exec_part(ctx):
             what="MeshExecutor.execute_for: results differ between permutations of rule registration, or the two "
                  "ends of a session do not mirror each other (addr / AS number / families / vrf / group)",
             replay={"kind": "exec", "case": c, "impl": {d: o["out"][d][:2] for d in c["devices"]}}))
+    for i in res2["noleak"][:2]:
+        c, o = cases[i], outs[i]
+        ctx.add_violation(core.Violation(
+            signature="C15/session-data-leaks-between-pairs",
+            what="MeshExecutor.execute_for: a peer carries an option / policy / family no handler call for its "
+                 "device pair has set (data of another pair's session leaked into it)",
+            replay={"kind": "exec", "case": c, "impl": {d: o["out"][d][:1] for d in c["devices"]}}))
+    if not res["holds"] and not res2["noleak"]:
+        for i in res2["agree"][:1]:
+            c, o = cases[i], outs[i]
+            ctx.add_violation(core.Violation(
+                signature="C15/executor-model-impl-disagree",
+                what="Coq model MeshExec.execute_for and MeshExecutor.execute_for differ (peers, interfaces or assigned "
+                     "addresses; correspondence broken); mirror / order / no-leak predicates hold on all outputs explored",
+                replay={"correspondence": "Model.MeshExec.execute_for vs annet.mesh.executor.MeshExecutor.execute_for",
+                        "kind": "exec_model", "case": c, "impl": {d: o["out"][d][:1] for d in c["devices"]}},
+                no_input=True))
+    stats["model_disagreements"] = len(res2["agree"])
     return {"evaluations": len(cases), "distinct_nontrivial": nontrivial, "stats": stats,
             "samples": [{"input": cases[-1], "impl": {d: outs[-1]["out"][d][:1] for d in cases[-1]["devices"]}}]}
+
+
+
+# ---------------------------------------------------------------------------------------------
+# interface clause: decision tables through the public API, and the whole-executor model
+
+IMPORTS_IFACE = "From Annet Require Import Model.Merge Model.Mesh Model.MeshExec Spec.P_C15 Spec.P_C15_iface."
+UNSET = object()
+
+
+def _put(d, f, v):
+    if v is not UNSET:
+        d[f] = v
+
+
+def sv2(v):
+    return {"k": "none"} if v is None else sv(v)
+
+
+def _enc_tbl2(l, r, s):
+    return {"l": {f: sv2(v) for f, v in l.items()}, "r": {f: sv2(v) for f, v in r.items()},
+            "s": {f: sv2(v) for f, v in s.items()}}
+
+
+DIRECT_COMBOS = [(lag, svi, sub) for lag in (UNSET, None, 0, 1) for svi in (UNSET, None, 0, 1)
+                 for sub in (UNSET, 0, 1, 7)]
+INDIRECT_COMBOS = [(ifn, svi, sub) for ifn in (UNSET, None, "", "lo0", "e1", "nope") for svi in (UNSET, None, 0, 1)
+                   for sub in (UNSET, 0, 1, 7)]
+
+
+def gen_table_cases() -> list[dict]:
+    """Exhaustive decision tables: one rule per case, every combination of the selecting attributes
+    (unset / None / 0 / other) on either end; `expect` is the bookkeeping of which DTO each device got."""
+    cases = []
+    n = len(DIRECT_COMBOS)
+    for k in (1, 2):
+        for pp in ("united", "separate"):
+            for i, cl in enumerate(DIRECT_COMBOS):
+                cr = DIRECT_COMBOS[(i * 5 + 3) % n]
+                ports = {"a1": [[f"e{j + 1}", "b1", f"e{j + 4}"] for j in range(k)],
+                         "b1": [[f"e{j + 4}", "a1", f"e{j + 1}"] for j in range(k)]}
+                if i % 2:
+                    ports["b1"].reverse()
+                conn_a = [(p, q) for p, _, q in ports["a1"]]
+                groups = [conn_a] if pp == "united" else [[x] for x in conn_a]
+                table, exp_a, exp_b = {}, [], []
+                for gi, g in enumerate(groups):
+                    l = {"addr": f"10.1.{gi}.1/30", "asnum": 65001}
+                    r = {"addr": f"10.1.{gi}.2/30", "asnum": 65002}
+                    s = {"families": {"ipv4_unicast"}}
+                    for d, c in ((l, cl), (r, cr)):
+                        _put(d, "lag", c[0]); _put(d, "svi", c[1]); _put(d, "subif", c[2])
+                    if i % 4 == 0:
+                        s["vrf"] = "V1"
+                    if i % 3 == 0 and isinstance(cl[0], int):
+                        l["lag_links_min"] = 1
+                    t = _enc_tbl2(l, r, s)
+                    table["a1|b1|" + ",".join(sorted(p for p, _ in g))] = t
+                    la, ra = dict(t["l"], **t["s"]), dict(t["r"], **t["s"])
+                    exp_a.append({"ports": [p for p, _ in g], "local": la, "conn": ra, "host": "b1"})
+                    # b1 sees its own connection order
+                    own = [q for q, _, p in ports["b1"] if p in {x for x, _ in g}]
+                    exp_b.append({"ports": own, "local": ra, "conn": la, "host": "a1"})
+                if pp == "separate":
+                    # b1 iterates its own connection order
+                    order = [q for q, _, _ in ports["b1"]]
+                    exp_b.sort(key=lambda e: order.index(e["ports"][0]))
+                rule = {"kind": "direct", "left": "a{n}", "right": "b{n}", "cond": "none", "pp": pp, "table": table}
+                cases.append({"devices": ["a1", "b1"], "ports": ports, "rules": [rule], "table_kind": "direct",
+                              "expect": {"a1": exp_a, "b1": exp_b}})
+    n = len(INDIRECT_COMBOS)
+    for i, cl in enumerate(INDIRECT_COMBOS):
+        ports = {"a1": [["e1", "b1", "e1"], ["e2", "c1", "e1"]], "b1": [["e1", "a1", "e1"]], "c1": [["e1", "a1", "e2"]]}
+        table, exp = {}, {"a1": [], "b1": [], "c1": []}
+        for j, other in enumerate(("b1", "c1")):
+            ca = INDIRECT_COMBOS[(i + 7 * j) % n]
+            co = INDIRECT_COMBOS[((i + 7 * j) * 5 + 3) % n]
+            l = {"addr": f"172.16.{j}.1/32", "asnum": 65001}
+            r = {"addr": f"172.16.{j}.2/32", "asnum": 65002 + j}
+            s = {"families": {"ipv4_unicast"}}
+            for d, c in ((l, ca), (r, co)):
+                _put(d, "ifname", c[0]); _put(d, "svi", c[1]); _put(d, "subif", c[2])
+            if (i + j) % 4 == 0:
+                s["vrf"] = "V1"
+            t = _enc_tbl2(l, r, s)
+            table[f"a1|{other}|"] = t
+            la, ra = dict(t["l"], **t["s"]), dict(t["r"], **t["s"])
+            exp["a1"].append({"ports": [], "local": la, "conn": ra, "host": other})
+            exp[other].append({"ports": [], "local": ra, "conn": la, "host": "a1"})
+        rule = {"kind": "indirect", "left": "a{n}", "right": "{r:[bc]}{n}", "cond": "none", "pp": "united", "table": table}
+        cases.append({"devices": ["a1", "b1", "c1"], "ports": ports, "rules": [rule], "table_kind": "indirect",
+                      "expect": exp})
+    svis = (UNSET, 0, 1, 30)
+    for i, combo in enumerate(itertools.product(svis, repeat=2)):
+        table, exp = {}, []
+        for num, svi in zip((0, 5), combo):
+            l = {"asnum": 65001}
+            v = {"addr": f"192.168.{num}.1", "asnum": 65100 + num}
+            s = {"families": {"ipv4_unicast"}}
+            _put(l, "svi", svi)
+            if i % 2:
+                l["addr"] = f"192.168.{num}.254/24"
+            t = _enc_tbl2(l, v, s)
+            table[f"a1|{num}"] = t
+            exp.append({"ports": [], "local": dict(t["l"], **{k: x for k, x in t["s"].items() if k != "families"}),
+                        "conn": dict(t["r"], **t["s"]), "host": ""})
+        rule = {"kind": "virtual", "left": "a{n}", "num": [0, 5], "table": table}
+        cases.append({"devices": ["a1", "b1"], "ports": {"a1": [["e1", "b1", "e1"]], "b1": [["e1", "a1", "e1"]]},
+                      "rules": [rule], "table_kind": "virtual", "expect": {"a1": exp, "b1": []}})
+    return cases
+
+
+def ceres(o: dict) -> str:
+    if "ok" in o:
+        peers = clist(centries(p) for p in o["ok"]["peers"])
+        log = clist(cpair(cstr(i), cstr(a), "None" if v is None else f"(Some {cstr(v)})") for i, a, v in o["ok"]["addrs"])
+        return f"(EOk {peers} {log})"
+    return "EValueError" if o["err"] == "ValueError" else "EOther"
+
+
+def tcase_term(case, dev, out) -> str:
+    kind = {"direct": "KDirect", "indirect": "KIndirect", "virtual": "KVirtual"}[case["table_kind"]]
+    ifs = clist(cstr(x) for x in ["lo0"] + [p for p, _, _ in case["ports"][dev]])
+    ss = clist("(TSess " + clist(cstr(p) for p in e["ports"]) + " " + centries(e["local"]) + " " +
+               centries(e["conn"]) + " " + cstr(e["host"]) + ")" for e in case["expect"][dev])
+    return cpair(cpair(kind, ifs, ss), ceres(out["out"][dev][0]))
+
+
+def parse_key(rule, key):
+    if rule["kind"] == "virtual":
+        d, num = key.split("|")
+        return d, int(num)
+    l, r, ports = key.split("|")
+    return l, r, [p for p in ports.split(",") if p]
+
+
+def ctriple(t) -> str:
+    return cpair(centries(t["l"]), centries(t["r"]), centries(t["s"]))
+
+
+def ecase_term(case, out) -> str:
+    devs = case["devices"]
+    rules = case["rules"]
+    ports = clist(cpair(cstr(d), clist(cpair(cstr(p), cstr(nb), cstr(nbp)) for p, nb, nbp in case["ports"][d]))
+                  for d in devs)
+
+    def crule(i, r):
+        return f"(Rule {i} {'Separate' if r.get('pp') == 'separate' else 'United'})"
+    drules = clist(crule(i, r) for i, r in enumerate(rules) if r["kind"] == "direct")
+    irules = clist(crule(i, r) for i, r in enumerate(rules) if r["kind"] == "indirect")
+    vrules = clist(f"(VRule {i} {clist(cZ(n) for n in r['num'])})" for i, r in enumerate(rules) if r["kind"] == "virtual")
+    mt, vmt, tbl, vtbl = [], [], [], []
+    for i, r in enumerate(rules):
+        if r["kind"] == "virtual":
+            vmt += [cpair(str(i), cstr(d)) for d in devs if mask_n(r["left"], d) is not None]
+            for key, t in r["table"].items():
+                d, num = parse_key(r, key)
+                vtbl.append(cpair(cpair(str(i), cstr(d), cZ(num)), ctriple(t)))
+            continue
+        mt += [cpair(str(i), cstr(L), cstr(R)) for L in devs for R in devs if rule_matches(r, L, R)]
+        for key, t in r["table"].items():
+            L, R, ps = parse_key(r, key)
+            tbl.append(cpair(cpair(str(i), cstr(L), cstr(R), clist(cstr(p) for p in ps)), ctriple(t)))
+    ec = ("(ECase " + " ".join([clist(cstr(d) for d in devs), ports, drules, irules, vrules, clist(mt), clist(vmt),
+                                clist(tbl), clist(vtbl), clist(cstr(f) for f in out["option_fields"])]) + ")")
+    obs = clist(cpair(cstr(d), ceres(out["out"][d][0])) for d in devs)
+    return cpair(ec, obs)
+
+
+AGREE_EXEC = ("fun c => agree_exec sch_DirectPeerDTO sch_IndirectPeerDTO sch_VirtualLocalDTO sch_VirtualPeerDTO "
+              "sch_PairDirect (fst c) (snd c)")
+
+
+def run_iface_part(ctx, tbl):
+    cases = gen_table_cases()
+    outs = core.run_impl_sharded("c15_runner.py", cases, wrap=lambda c: {"op": "exec", "cases": c},
+                                 shards=min(core.NPROC, max(1, len(cases) // 40)))
+    terms, owner = [], []
+    for ci, (c, o) in enumerate(zip(cases, outs)):
+        for d in c["devices"]:
+            terms.append(tcase_term(c, d, o))
+            owner.append((ci, d))
+    res = core.run_case_files(ID, "tcase * eres", IMPORTS_IFACE,
+                              {"holds": "fun c => P_C15_iface stub_naming (fst c) (snd c)"}, terms,
+                              per_file=150, tag="iface")
+    eterms = [ecase_term(c, o) for c, o in zip(cases, outs)]
+    res2 = core.run_case_files(ID, "ecase * list (string * eres)", IMPORTS_IFACE, {"agree": AGREE_EXEC}, eterms,
+                               per_file=60, tag="iface_model", extra_defs=schema_defs(tbl))
+    hist = {"direct": 0, "indirect": 0, "virtual": 0}
+    outcome = {"ok": 0, "ValueError": 0, "other": 0}
+    for c, o in zip(cases, outs):
+        hist[c["table_kind"]] += 1
+        for d in c["devices"]:
+            r = o["out"][d][0]
+            outcome["ok" if "ok" in r else r["err"]] += 1
+    for i in res["holds"][:3]:
+        ci, d = owner[i]
+        c = cases[ci]
+        ctx.add_violation(core.Violation(
+            signature=f"C15/interface-not-the-selected-one/{c['table_kind']}",
+            what="MeshExecutor.execute_for: a peer (or the local address of the session) does not sit on the "
+                 "interface the rule's DTO selects (port / LAG / sub-interface n>=0 / SVI), or a refused "
+                 "combination was accepted",
+            replay={"kind": "iface", "case": c, "device": d, "impl": outs[ci]["out"][d][:1]}))
+    if not res["holds"]:
+        for i in res2["agree"][:1]:
+            ctx.add_violation(core.Violation(
+                signature="C15/executor-model-impl-disagree/table",
+                what="Coq model MeshExec.execute_for and MeshExecutor.execute_for differ on a decision-table case "
+                     "(correspondence broken); the interface predicate holds on all implementation outputs explored",
+                replay={"correspondence": "Model.MeshExec.execute_for vs annet.mesh.executor.MeshExecutor.execute_for",
+                        "kind": "exec_model", "case": cases[i], "impl": {d: outs[i]["out"][d][:1] for d in cases[i]["devices"]}},
+                no_input=True))
+    return {"evaluations": len(terms), "distinct_nontrivial": len(terms), "cases": hist, "device_outcomes": outcome,
+            "model_disagreements": len(res2["agree"]),
+            "scope": "direct: (lag, svi) over {unset, None, 0, 1} x subif over {unset, 0, 1, 7} on either end x 1-2 links x "
+                     "united/separate ports; indirect: ifname over {unset, None, '', lo0, e1, missing} x svi x subif, two "
+                     "sessions on a1; virtual: svi over {unset, 0, 1, 30} for two nums",
+            "samples": [{"input": {k: v for k, v in cases[6].items()}, "impl": outs[6]["out"]["a1"][:1]}]}
+
+
+def _sv(v):
+    return {"k": "bool", "v": v} if isinstance(v, bool) else scalar(v)
+
+
+KNOWN_VRF_CASE = {
+    "devices": ["a1", "b1"], "ports": {"a1": [["e1", "b1", "e1"]], "b1": [["e1", "a1", "e1"]]},
+    "rules": [
+        {"kind": "direct", "left": "a{n}", "right": "b{n}", "cond": "none", "pp": "united",
+         "table": {"a1|b1|e1": {"l": {"addr": _sv("10.0.0.1/30"), "asnum": _sv(65001), "vrf": _sv("VA")},
+                                "r": {"addr": _sv("10.0.0.2/30"), "asnum": _sv(65002)}, "s": {}}}},
+        {"kind": "direct", "left": "a{n}", "right": "b{n}", "cond": "none", "pp": "united",
+         "table": {"a1|b1|e1": {"l": {"addr": _sv("10.0.0.1/30"), "asnum": _sv(65001)},
+                                "r": {"addr": _sv("10.0.0.2/30"), "asnum": _sv(65002)}, "s": {"bfd": _sv(True)}}}},
+    ]}
+
+
+def run_known_probe(ctx, tbl):
+    """The witness of C15_mirror_merged_refuted on the real executor (known/C15.json): reported while it reproduces."""
+    c = KNOWN_VRF_CASE
+    out = core.run_impl("c15_runner.py", {"op": "exec", "cases": [c]})[0]
+    res = core.run_case_files(ID, "exec_output", IMPORTS, {"holds": "fun c => P_C15_exec c"}, [exec_term(c, out)],
+                              tag="known_probe")
+    res2 = core.run_case_files(ID, "ecase * list (string * eres)", IMPORTS_IFACE, {"agree": AGREE_EXEC},
+                               [ecase_term(c, out)], tag="known_probe_model", extra_defs=schema_defs(tbl))
+    if res["holds"]:
+        ctx.add_violation(core.Violation(
+            signature="C15/mirror-merged/per-side-vrf-splits-session",
+            what="two handlers for one pair, vrf set on one peer object by one of them: one end merges both results into one "
+                 "session, the other end keeps two sessions to the same address",
+            replay={"kind": "exec", "case": c, "impl": {d: out["out"][d][:1] for d in c["devices"]}}))
+    if res2["agree"]:
+        ctx.add_violation(core.Violation(
+            signature="C15/executor-model-impl-disagree/known-probe",
+            what="Coq model and MeshExecutor.execute_for differ on the witness of C15_mirror_merged_refuted",
+            replay={"correspondence": "Model.MeshExec.execute_for vs MeshExecutor.execute_for", "kind": "exec_model",
+                    "case": c, "impl": {d: out["out"][d][:1] for d in c["devices"]}}, no_input=True))
+    ctx.coverage["known_probe"] = {"reproduces": bool(res["holds"]), "model_agrees": not res2["agree"]}
+
+
+def check_schema_guards(ctx, tbl):
+    """The premises of C15_key_is_peer_addr, evaluated on the schemas read from the real classes."""
+    g = ('match lookup "connected" {p} with Some (MMerge s) => '
+         'match lookup "addr" s, lookup "addr" {d} with Some MForbidChange, Some MForbidChange => true | _, _ => false end '
+         '| _ => false end')
+    vals = core.coq_eval(ID, IMPORTS_IFACE + "\n" + schema_defs(tbl),
+                         [g.format(p="sch_PairDirect", d="sch_DirectPeerDTO"),
+                          g.format(p="sch_PairIndirect", d="sch_IndirectPeerDTO")], tag="schema_guards")
+    if vals != ["true", "true"]:
+        ctx.add_violation(core.Violation(
+            signature="C15/pair-schema-guard",
+            what="Pair.connected is no longer merged by Merge() or addr is no longer a ForbidChange field: the premises of "
+                 "C15_key_is_peer_addr do not hold for the real classes",
+            replay={"theorem": "C15_key_is_peer_addr", "evaluated": vals}, no_input=True))
+    ctx.coverage["schema_guards"] = vals
 
 
 def run(ctx):
     core.proof_stage(ctx, THEOREM_FILE)
     tbl = core.run_impl("c15_runner.py", {"op": "schemas"})
+    check_schema_guards(ctx, tbl)
+    run_known_probe(ctx, tbl)
     m = run_merge_part(ctx, tbl)
-    x = run_exec_part(ctx)
+    it = run_iface_part(ctx, tbl)
+    x = run_exec_part(ctx, tbl)
     ctx.coverage.update({
-        "evaluations": m["evaluations"] + x["evaluations"],
-        "distinct_nontrivial": m["distinct_nontrivial"] + x["distinct_nontrivial"],
+        "evaluations": m["evaluations"] + x["evaluations"] + it["evaluations"],
+        "distinct_nontrivial": m["distinct_nontrivial"] + x["distinct_nontrivial"] + it["distinct_nontrivial"],
         "rule": "merge: distinct by canonical hash of the realised (a,b,c); non-trivial = a and b set at least one "
                 "common top-level attribute (so a merger actually runs). executor: distinct by hash of the case; "
                 "non-trivial = at least 2 rules and at least two devices end up with peers",
@@ -587,12 +976,17 @@ def run(ctx):
         "disagreements_checked": m["disagreements"],
         "merge": {k: v for k, v in m.items() if k != "samples"},
         "executor": {k: v for k, v in x.items() if k != "samples"},
+        "interface_tables": {k: v for k, v in it.items() if k != "samples"},
         "exhaustive": False,
     })
     ctx.assumptions += [
         "nested models are monomorphic: the runtime class of a Merge() field is the declared one",
         "values are well typed per field (Python's 1 == True and str+str under Concat are outside the model)",
         "handlers and matchers are pure functions of (left, right, ports)",
+        "the storage returns every device it is asked for and its Device.make_lag/add_svi/add_subif add the named "
+        "interface or return the existing one (annet.storage.Device contract); interface names as the stub gives them "
+        "(Trunk<n>, Vlan<n>, <parent>.<n>)",
+        "DTO attributes the interface selection reads are well typed (addr: str; lag/svi/subif: int or None)",
     ]
 
 
@@ -614,7 +1008,28 @@ def replay(ctx, doc):
         out = core.run_impl("c15_runner.py", {"op": "exec", "cases": [c]})[0]
         res = core.run_case_files(ID, "exec_output", IMPORTS, {"holds": "fun c => P_C15_exec c"},
                                   [exec_term(c, out)], tag="replay")
+        res2 = core.run_case_files(ID, "ecase * list (string * eres)", IMPORTS_IFACE,
+                                   {"noleak": "fun c => P_C15_no_leak (fst c) (snd c)"},
+                                   [ecase_term(c, out)], tag="replay2", extra_defs=schema_defs(tbl))
         print("impl:", json.dumps({d: out["out"][d][:2] for d in c["devices"]})[:4000])
+        print("holds:", not res["holds"], "noleak:", not res2["noleak"])
+        return 1 if (res["holds"] or res2["noleak"]) else 0
+    if r.get("kind") == "iface":
+        c, d = r["case"], r["device"]
+        out = core.run_impl("c15_runner.py", {"op": "exec", "cases": [c]})[0]
+        res = core.run_case_files(ID, "tcase * eres", IMPORTS_IFACE,
+                                  {"holds": "fun c => P_C15_iface stub_naming (fst c) (snd c)"},
+                                  [tcase_term(c, d, out)], tag="replay")
+        print("device:", d, "impl:", json.dumps(out["out"][d][:1])[:3000])
         print("holds:", not res["holds"])
         return 1 if res["holds"] else 0
+    if r.get("kind") == "exec_model":
+        c = r["case"]
+        out = core.run_impl("c15_runner.py", {"op": "exec", "cases": [c]})[0]
+        res = core.run_case_files(ID, "ecase * list (string * eres)", IMPORTS_IFACE,
+                                  {"agree": AGREE_EXEC, "noleak": "fun c => P_C15_no_leak (fst c) (snd c)"},
+                                  [ecase_term(c, out)], tag="replay", extra_defs=schema_defs(tbl))
+        print("impl:", json.dumps({d: out["out"][d][:1] for d in c["devices"]})[:4000])
+        print("agree:", not res["agree"], "noleak:", not res["noleak"])
+        return 1 if (res["agree"] or res["noleak"]) else 0
     raise core.CheckFailure("unknown replay kind")
